@@ -428,6 +428,7 @@ func run(c *vf.Ctx) {
 	c.Floor("entry sets git calls unclean", c.Counter("encode_sets_invalid"), c.N(300, 2500))
 	c.Floor("trees written by go-git and fsck'ed", c.Counter("gogit_trees_fscked"), c.N(500, 4000))
 	c.Floor("worktrees committed through Worktree.Commit and compared with git write-tree", c.Counter("porcelain_git_write_tree_confirmations"), c.N(6, 40))
+	c.Floor("sorted entry sets whose duplicate names are not adjacent (file a, a.b, dir a)", c.Counter("encode_sets_with_non_adjacent_duplicate_names"), c.N(40, 300))
 	c.Floor("mktree cross-checks of the serialisation model", c.Counter("mktree_confirmations"), c.N(300, 2500))
 	c.Assume("git 2.39.5 ls-tree/mktree/fsck --strict are the reference; entry names longer than 4096 bytes are excluded from the encode domain because fsck.largePathname does not exist in git 2.39 (go-git follows git 2.54 and refuses them)")
 	c.Assume("'valid entry set' = the tree holding exactly that set (serialised in git's order) draws no error from git fsck --strict; 'fsck-clean' = no error line for the tree from git fsck --strict (warnings/info such as badFilemode for 100664 or gitignoreSymlink do not count)")
@@ -1079,6 +1080,18 @@ func refusalKey(e ent, err error) string {
 	return "refuses-valid:entry:" + nameClass(n) + ":" + cls
 }
 
+// separatedDuplicate: two entries share a name but at least one other entry stands between them (git order: "a", "a.b", "a/").
+func separatedDuplicate(es []ent) bool {
+	last := map[string]int{}
+	for i, e := range es {
+		if j, ok := last[e.name]; ok && i-j > 1 {
+			return true
+		}
+		last[e.name] = i
+	}
+	return false
+}
+
 func mktreeType(m uint32) string {
 	switch m & 0o170000 {
 	case 0o040000:
@@ -1213,6 +1226,9 @@ func encodeSide(c *vf.Ctx, g *gitx.Git, fname string, idLen int) bool {
 		}
 		s.goID, s.goErr = id, err
 		c.Count("encode_sets", 1)
+		if separatedDuplicate(s.es) {
+			c.Count("encode_sets_with_non_adjacent_duplicate_names", 1)
+		}
 		c.Eval(fname+" "+s.shape, s.nontri)
 	}
 	oErrs, _, ok := fsckStrict(c, g, goDir)
